@@ -10,14 +10,15 @@ u32 _ZSt19uncaught_exceptionsv(void) { return 0; }
 #define NPOOL 2
 #endif
 struct { struct S_class_tbb__detail__r1__context_list l; u8 pad[256 - sizeof(struct S_class_tbb__detail__r1__context_list)]; } vp_ctxlist_obj __attribute__((aligned(128))); int vp_ctxlist_used;
-struct S_class_tbb__detail__d1__task* vp_pool[NPOOL][64] __attribute__((aligned(128))); int vp_pool_used;
+struct vp_poolmem { struct S_class_tbb__detail__d1__task* a[64]; } __attribute__((aligned(128)));   /* (struct-wrapped: cbmc decides &vp_pool[k] == q during symbolic execution, not so for rows of a 2-D array) */
+struct vp_poolmem vp_pool[NPOOL]; int vp_pool_used;
 u8* _ZN3tbb6detail2r122cache_aligned_allocateEm(u64 n) {
-  if (n == 512) { VP_ASSERT(vp_pool_used < NPOOL, "VP bound: task pools"); return (u8*)vp_pool[vp_pool_used++]; }
+  if (n == 512) { VP_ASSERT(vp_pool_used < NPOOL, "VP bound: task pools"); return (u8*)&vp_pool[vp_pool_used++]; }
   if (n == 256) { VP_ASSERT(sizeof(vp_ctxlist_obj) == 256, "layout"); VP_ASSERT(!vp_ctxlist_used, "VP bound: one context_list"); vp_ctxlist_used = 1; return (u8*)&vp_ctxlist_obj; }   /* thread_data's context_list: typed */
   VP_ASSERT(n <= 64, "VP bound: cache_aligned_allocate larger than expected in this scenario");
   u8* p = malloc(n); __CPROVER_assume(p != 0); return p; }
 void _ZN3tbb6detail2r124cache_aligned_deallocateEPv(u8* p) {
-  for (int i = 0; i < NPOOL; i++) if (p == (u8*)vp_pool[i]) return;
+  for (int i = 0; i < NPOOL; i++) if (p == (u8*)&vp_pool[i]) return;
   if (p == (u8*)&vp_ctxlist_obj) return;
   free(p); }
 /* allocate_memory: tbb_exception_ptr (8 bytes; counted) and the nodes of the dispatcher's reference-vertex map (24 bytes) */
